@@ -36,7 +36,7 @@ TReset == /\ Consume /\ E.e = "reset"
                                           THEN LET n == CHOOSE m \in {1, 2} : \E i \in 1..Len(E.b[m].perm) : E.b[m].ks[E.b[m].perm[i] + 1] = k
                                                    i == CHOOSE j \in 1..Len(E.b[n].perm) : E.b[n].ks[E.b[n].perm[j] + 1] = k IN E.b[n].lv[E.b[n].perm[i] + 1]
                                           ELSE ABSENT])
-          /\ seen' = [t \in Threads |-> {}] /\ res' = [t \in Threads |-> <<>>]
+          /\ seen' = [t \in Threads |-> [k \in Keys |-> {}]] /\ res' = [t \in Threads |-> <<>>]
 TInv == Consume /\ E.e = "inv" /\ Start(E.t)
 \* put loads the root pointer twice at its start (null test, then retry_from_root): the second value is the one it uses
 G0Again(t) == loc' = [loc EXCEPT ![t].root = rootp] /\ UNCHANGED <<bd, it, rootp, rootlock, pc, abs, seen, res>>
